@@ -38,7 +38,9 @@ package rueidisprob
 
 //@ func NewBloomFilter
 //@   modifies *
-//@   ensures [C35 accepted-configuration-is-usable] result1 == nil ==> (typeis(result0, *bloomFilter) && ptrof(result0, *bloomFilter).hashIterations >= 1 && ptrof(result0, *bloomFilter).size >= 1 && ptrof(result0, *bloomFilter).size <= 4294967296 && ptrof(result0, *bloomFilter).hashIterationString == strconv.FormatUint(uint64(ptrof(result0, *bloomFilter).hashIterations), 10))
+//@   let P = ptrof(result0, *bloomFilter)
+//@   ensures [C35 accepted-configuration-is-usable] result1 == nil ==> (typeis(result0, *bloomFilter) && P != nil && P.hashIterations >= 1 && P.size >= 1 && P.size <= 4294967296 && P.hashIterationString == strconv.FormatUint(uint64(P.hashIterations), 10))
+//@   ensures [C35 add-and-exists-address-the-same-bitmap] result1 == nil ==> (len(P.addMultiKeys) == 2 && P.addMultiKeys[0] == P.name && P.addMultiKeys[1] == P.counter && len(P.existsMultiKeys) == 1 && P.existsMultiKeys[0] == P.name && P.addMultiScript != nil && P.existsMultiScript != nil)
 
 //@ func bloomFilter.indexes
 //@   requires c.hashIterations >= 1 && c.hashIterations <= 4294967296 && c.size >= 1 && buf != nil
@@ -47,9 +49,9 @@ package rueidisprob
 //@   modifies *buf, (*buf)[*]
 //@   ensures [C35 one-block-of-positions-per-key] len(result) == mulk(len(keys), c.hashIterations)
 //@   ensures [C35 positions-depend-on-the-key-alone] forall a int, b int :: {cell(a, b)} (cell(a, b) && 0 <= a && a < len(keys) && 0 <= b && b < c.hashIterations) ==> result[mulk(a, c.hashIterations) + b] == want(keys[a], b, uint64(c.size))
-//@   loop 0: invariant [C35] rangeindex >= -1 && rangeindex < len(keys) && len(allIndexes) == mulk(rangeindex + 1, c.hashIterations)
+//@   loop 0: invariant [C35] rangeindex >= -1 && rangeindex < len(keys) && len(allIndexes) == mulk(rangeindex + 1, c.hashIterations) && fresh(allIndexes)
 //@   loop 0: invariant [C35] forall a int, b int :: {cell(a, b)} (cell(a, b) && 0 <= a && a <= rangeindex && 0 <= b && b < c.hashIterations) ==> allIndexes[mulk(a, c.hashIterations) + b] == want(keys[a], b, uint64(c.size))
-//@   loop 1: invariant [C35] 0 <= i && i <= c.hashIterations && len(allIndexes) == mulk(rangeindex + 1, c.hashIterations) + i && rangeindex + 1 < len(keys) && rangeindex >= -1
+//@   loop 1: invariant [C35] 0 <= i && i <= c.hashIterations && len(allIndexes) == mulk(rangeindex + 1, c.hashIterations) + i && rangeindex + 1 < len(keys) && rangeindex >= -1 && fresh(allIndexes) && key == keys[rangeindex + 1]
 //@   loop 1: invariant [C35] forall a int, b int :: {cell(a, b)} (cell(a, b) && ((0 <= a && a <= rangeindex && 0 <= b && b < c.hashIterations) || (a == rangeindex + 1 && 0 <= b && b < i))) ==> allIndexes[mulk(a, c.hashIterations) + b] == want(keys[a], b, uint64(c.size))
 
 // the byte-buffer pool (internal/util.Pool over sync.Pool) as seen from this package: Get hands out a container
@@ -62,18 +64,20 @@ package rueidisprob
 // what the add script is given: the hash count, then for key number a its k positions, in order
 //@ func bloomFilter.AddMulti
 //@   requires c.hashIterations >= 1 && c.hashIterations <= 4294967296 && c.size >= 1
+//@   requires len(c.addMultiKeys) == 2 && c.addMultiKeys[0] == c.name && c.addMultiKeys[1] == c.counter
 //@   requires len(keys) * c.hashIterations <= 1099511627776
 //@   modifies *
-//@   assert [C35 add-sends-the-positions-of-its-keys] at Exec: arg0 == c.addMultiScript && len(arg4) == 1 + mulk(len(keys), c.hashIterations) && arg4[0] == c.hashIterationString && (forall a int, b int :: {cell(a, b)} (cell(a, b) && 0 <= a && a < len(keys) && 0 <= b && b < c.hashIterations) ==> arg4[1 + mulk(a, c.hashIterations) + b] == want(keys[a], b, uint64(c.size)))
+//@   assert [C35 add-sends-the-positions-of-its-keys] at Exec: arg0 == c.addMultiScript && len(arg3) == 2 && arg3[0] == c.name && arg3[1] == c.counter && len(arg4) == 1 + mulk(len(keys), c.hashIterations) && arg4[0] == c.hashIterationString && (forall a int, b int :: {cell(a, b)} (cell(a, b) && 0 <= a && a < len(keys) && 0 <= b && b < c.hashIterations) ==> arg4[1 + mulk(a, c.hashIterations) + b] == want(keys[a], b, uint64(c.size)))
 //@   ensures [C35 add-reports-the-servers-verdict where-defined] (result == nil) <==> !failed(resp)
 
 // what the exists script is given (the same positions as the add script got for the same key), and how its answer
 // is decoded: one answer per key, in key order
 //@ func bloomFilter.ExistsMulti
 //@   requires c.hashIterations >= 1 && c.hashIterations <= 4294967296 && c.size >= 1
+//@   requires len(c.existsMultiKeys) == 1 && c.existsMultiKeys[0] == c.name
 //@   requires len(keys) * c.hashIterations <= 1099511627776
 //@   modifies *
-//@   assert [C35 exists-sends-the-positions-of-its-keys] at Exec: arg0 == c.existsMultiScript && len(arg4) == 1 + mulk(len(keys), c.hashIterations) && arg4[0] == c.hashIterationString && (forall a int, b int :: {cell(a, b)} (cell(a, b) && 0 <= a && a < len(keys) && 0 <= b && b < c.hashIterations) ==> arg4[1 + mulk(a, c.hashIterations) + b] == want(keys[a], b, uint64(c.size)))
+//@   assert [C35 exists-sends-the-positions-of-its-keys] at Exec: arg0 == c.existsMultiScript && len(arg3) == 1 && arg3[0] == c.name && len(arg4) == 1 + mulk(len(keys), c.hashIterations) && arg4[0] == c.hashIterationString && (forall a int, b int :: {cell(a, b)} (cell(a, b) && 0 <= a && a < len(keys) && 0 <= b && b < c.hashIterations) ==> arg4[1 + mulk(a, c.hashIterations) + b] == want(keys[a], b, uint64(c.size)))
 //@   ensures [C35 one-answer-per-key-in-order where-defined] (result1 == nil && len(keys) > 0) ==> (len(result0) == len(keys) && (forall j int :: (0 <= j && j < len(arr) && j < len(keys)) ==> scriptbool(arr[j], result0[j])))
 //@   ensures [C35 server-error-is-reported where-defined] failed(resp) ==> result1 != nil
 //@   ensures [C35 as-many-answers-as-keys] (result1 == nil && len(keys) > 0) ==> len(result0) == len(keys)
@@ -82,12 +86,14 @@ package rueidisprob
 // the single-item forms delegate: one key in, that key's verdict out
 //@ func bloomFilter.Add
 //@   requires c.hashIterations >= 1 && c.hashIterations <= 4294967296 && c.size >= 1
+//@   requires len(c.addMultiKeys) == 2 && c.addMultiKeys[0] == c.name && c.addMultiKeys[1] == c.counter
 //@   modifies *
 //@   assert [C35 add-delegates-its-key] at AddMulti: arg0 == c && len(arg2) == 1 && arg2[0] == key
 //@   ensures [C35 add-returns-the-batch-verdict where-defined] result == returned(AddMulti)
 
 //@ func bloomFilter.Exists
 //@   requires c.hashIterations >= 1 && c.hashIterations <= 4294967296 && c.size >= 1
+//@   requires len(c.existsMultiKeys) == 1 && c.existsMultiKeys[0] == c.name
 //@   modifies *
 //@   safety C35
 //@   assert [C35 exists-delegates-its-key] at ExistsMulti: arg0 == c && len(arg2) == 1 && arg2[0] == key
